@@ -15,7 +15,8 @@
 (***************************************************************************)
 EXTENDS JwtAccept, TLC
 
-CONSTANT Mutant
+CONSTANTS Mutant,   \* "none" or the name of a deliberately broken step
+          Full      \* TRUE: full product of the claims family; FALSE: one claim dimension at a time + reduced cross product
 
 VARIABLES t, j, mech, rule, pc, idx, res
 
@@ -83,9 +84,35 @@ ClaimRules == {A(i, au, sc, <<>>, lw) :
                  i \in {<<>>, <<"i2">>}, au \in {<<>>, <<"a2">>},
                  sc \in {<<>>, <<"s1", "s2">>}, lw \in {0, 20}}
 
+BaseTok == [signedBy |-> "k1", alg |-> "PS256", kid |-> "id1"] @@ GoodClaims
+NoAssert == A(<<>>, <<>>, <<>>, <<>>, 0)
+OneKey == <<E("k1", "PS256", "id1")>>
+
+(* the claims family pruned by independence: one claim with its two        *)
+(* assertion levels in full product, the rest valid; plus a cross product  *)
+(* over two values per dimension                                           *)
+ClaimSplit ==
+  \/ /\ t \in {[BaseTok EXCEPT !.iss = i] : i \in {"i1", "i2", "i3", Absent}}
+     /\ mech \in {A(i, <<>>, <<>>, <<>>, 0) : i \in {<<"i1">>, <<"i1", "i2">>}}
+     /\ rule \in {[NoAssert EXCEPT !.iss = i] : i \in {<<>>, <<"i2">>}}
+  \/ /\ t \in {[BaseTok EXCEPT !.aud = a] : a \in {<<>>, <<"a1">>, <<"a2">>, <<"a3", "a1">>}}
+     /\ mech \in {A(<<"i1">>, a, <<>>, <<>>, 0) : a \in {<<>>, <<"a1">>}}
+     /\ rule \in {[NoAssert EXCEPT !.aud = a] : a \in {<<>>, <<"a2">>}}
+  \/ /\ t \in {[BaseTok EXCEPT !.scp = sc] : sc \in {<<>>, <<"s1">>, <<"s2", "s1">>}}
+     /\ mech \in {A(<<"i1">>, <<>>, sc, <<>>, 0) : sc \in {<<>>, <<"s1">>}}
+     /\ rule \in {[NoAssert EXCEPT !.scp = sc] : sc \in {<<>>, <<"s1", "s2">>}}
+  \/ /\ t \in {[BaseTok EXCEPT !.exp = tm.exp, !.nbf = tm.nbf, !.iat = tm.iat] : tm \in Times}
+     /\ mech \in {A(<<"i1">>, <<>>, <<>>, <<>>, lw) : lw \in {0, 60}}
+     /\ rule \in {[NoAssert EXCEPT !.leeway = lw] : lw \in {0, 20}}
+  \/ /\ t \in {x \in ClaimTokens : /\ x.iss \in {"i1", "i2"} /\ x.aud \in {<<"a1">>, <<"a2">>}
+                                   /\ x.scp \in {<<"s1">>, <<"s2", "s1">>}
+                                   /\ x.exp \in {<<300>>, <<-30>>} /\ x.iat = <<-60>> /\ x.nbf = <<-60>>}
+     /\ mech \in ClaimMechs /\ rule \in ClaimRules
+
 Init ==
   /\ \/ /\ t \in CryptoTokens /\ j \in KeySets /\ mech \in CryptoMechs /\ rule \in CryptoRules
-     \/ /\ t \in ClaimTokens /\ j = <<E("k1", "PS256", "id1")>> /\ mech \in ClaimMechs /\ rule \in ClaimRules
+     \/ /\ j = OneKey
+        /\ IF Full THEN t \in ClaimTokens /\ mech \in ClaimMechs /\ rule \in ClaimRules ELSE ClaimSplit
   /\ pc = "start" /\ idx = 0 /\ res = "none"
 
 (* ------------------------- the machine (and mutants) -------------------- *)
